@@ -531,11 +531,11 @@ theorem scanSlash_ne {c : Char} (h : c ≠ '/') (r : List Char) : Lex.scanSlash 
   split <;> first | rfl | (rename_i heq; simp only [List.cons.injEq] at heq; exact absurd heq.1 h)
 
 theorem lexCore_leaf (c : Char) (r : List Char) (hc : LeafStart c) (f : Nat)
-    (st : List (Delim × Nat)) :
+    (st : List (Delim × Lex.Mark)) :
     Lex.lexCore (f + 1) (c :: r) st =
       match Lex.lexLeaf (c :: r) with
-      | some (k, rest) => (Lex.lexCore f rest st).map ((k, (c :: r).length) :: ·)
-      | none => .error (c :: r).length := by
+      | some (k, rest) => (Lex.lexCore f rest st).map ((k, Lex.here (c :: r)) :: ·)
+      | none => .error (Lex.here (c :: r)) := by
   obtain ⟨h1, h2, h3, h4, h5, h6, h7, h8, h9⟩ := hc
   have hws := isWs_false_of_range h1 h2
   have hsl : c ≠ '/' := fun e => h3 (by rw [e]; rfl)
@@ -582,7 +582,8 @@ theorem lexL_int (b : Base) (cs : List Char) (h : Spelling b cs) :
   simp only [List.append_nil] at e hl
   simp only [Lex.lexL]
   rw [e, stripBom_digit hc, List.length_cons, lexCore_leaf c r (leafStart_digit hc), ← e, hl]
-  simp only [Lex.lexCore, Except.map, List.map_cons, List.map_nil]
+  simp only [Lex.lexCore, Except.map, List.map_cons, List.map_nil, Lex.Mark.rem, Lex.here,
+    Nat.add_zero]
   rw [posOfRem_full]
 
 open Print (digitsLE digitChar Base)
